@@ -65,7 +65,7 @@ CLAIMED["C11"] = ("§3 C11",
 
 CLAIMED["C19"] = ("§3 C19",
     "lockset guarded-by analysis for package-level and struct-field state with alias normalisation, double-checked-insertion rule, post-init global-write scan over the API import closure, cache type and field-write ownership checks, OpContext creation who-may-call, copy-on-write rules (field writes only on local copies / fresh constructors, shallow-copy slice aliasing, unprotected append on by-value types)",
-    "Decides that the runtime's shared label table and import index are accessed only under their locks (write lock for writes) and that optimistic insertions re-check under the write lock, that no other package-level variable of the API import closure is written after init unless it is a sync/atomic type or reviewed, that caches are concurrency-safe types whose published values are written only by their constructors, that the shared structs hold no OpContext or Pool, that package cue creates an OpContext only in newContext, fresh per call; and a copy-on-write discipline: immutable fields of adt.Environment are written only on a local copy or a fresh Environment, slice fields of shallow Vertex copies are replaced (never re-sliced in place) and their elements written only after replacement by a fresh slice, by-value API types never append into their own backing array unprotected, and no API read path finalizes a pattern-constraint vertex of a shared value in place. Two genuine defects found by these rules were repaired in /repo (ToDataAll rewrote the conjuncts of the shared vertex; Path.Append aliased its backing array), one is recorded as a known finding (Iterator.Next finalizes pattern constraints lazily). It does not decide lazy finalisation of other shared vertices under concurrent readers.",
+    "Decides that the runtime's shared label table and import index are accessed only under their locks (write lock for writes) and that optimistic insertions re-check under the write lock, that no other package-level variable of the API import closure is written after init unless it is a sync/atomic type or reviewed, that caches are concurrency-safe types whose published values are written only by their constructors, that the shared structs hold no OpContext or Pool, that package cue creates an OpContext only in newContext, fresh per call; and a copy-on-write discipline: immutable fields of adt.Environment are written only on a local copy or a fresh Environment, slice fields of shallow Vertex copies are replaced (never re-sliced in place) and their elements written only after replacement by a fresh slice, by-value API types never append into their own backing array unprotected, no API read path finalizes a pattern-constraint vertex of a shared value in place, and the Go-to-CUE converter never writes through a *adt.Vertex it received by type assertion from an incoming adt.Value (it may copy it). Two genuine defects found by these rules were repaired in /repo (ToDataAll rewrote the conjuncts of the shared vertex; Path.Append aliased its backing array), one is recorded as a known finding (Iterator.Next finalizes pattern constraints lazily). It does not decide lazy finalisation of other shared vertices under concurrent readers.",
     "alias-precise ownership of *adt.Vertex is out of reach (no pointer analysis)")
 
 CLAIMED["C17"] = ("§3 C17",
@@ -105,7 +105,7 @@ CLAIMED["C04"] = ("§0.6 / §4 C04",
 
 CLAIMED["C13"] = ("§0.7 / §4 C13",
     "registry exhaustiveness of the generated keyword table, def-use analysis of the per-schema state against the table's phase numbers (who writes / who reads each field, transitively through helpers, stopping at child-state constructors), operator tables of the bound keywords in both directions by finite case analysis, CFG gates on the keyword dispatcher",
-    "Narrow: decides structural necessary conditions of the keyword translation — every keyword of the conformance subset has exactly one translating handler; a handler that reads per-schema state written by another keyword's handler runs in a strictly later phase (exclusiveMinimum before minimum, minContains before contains, properties/patternProperties before additionalProperties, properties before required, $schema first, ...) and state shared across phases is only narrowed; each bound keyword adds its constraint for the right core type with the right operator/builtin, and the generator spells each operator as the keyword the importer reads back as that operator (including the boolean-exclusive dialects); the dispatcher calls a handler only in its own phase and only for schema versions it is defined for; the type-name table of the type keyword; a count handed to matchN is the length of the list handed to it; a handler that inspects the collected object fields never shares a phase with one that adds fields; the generator emits the collected object constraints whenever any exist and its keyword-interaction table is symmetric. Two genuine defects found by these rules were repaired in /repo (allOf counted dropped members; the generator dropped all object constraints when properties, required and patterns were all present) and one is a known finding (a boolean false sub-schema is dropped by the combinators). It does NOT decide that the CUE built for a keyword or a combination of keywords accepts exactly the instances JSON Schema prescribes (matchN/matchIf/closedness interactions): that is the core of the property and needs an independent validator as oracle.",
+    "Narrow: decides structural necessary conditions of the keyword translation — every keyword of the conformance subset has exactly one translating handler; a handler that reads per-schema state written by another keyword's handler runs in a strictly later phase (exclusiveMinimum before minimum, minContains before contains, properties/patternProperties before additionalProperties, properties before required, $schema first, ...) and state shared across phases is only narrowed; each bound keyword adds its constraint for the right core type with the right operator/builtin, and the generator spells each operator as the keyword the importer reads back as that operator (including the boolean-exclusive dialects); the dispatcher calls a handler only in its own phase and only for schema versions it is defined for; the type-name table of the type keyword; a count handed to matchN is the length of the list handed to it; a handler that inspects the collected object fields never shares a phase with one that adds fields; the generator emits the collected object constraints whenever any exist and its keyword-interaction table is symmetric; every generator item node is rebuilt with all its fields by the optimisation passes, hashed over all its fields (nodes are interned by hash) and rendered from all its fields. Two genuine defects found by these rules were repaired in /repo (allOf counted dropped members; the generator dropped all object constraints when properties, required and patterns were all present) and one is a known finding (a boolean false sub-schema is dropped by the combinators). It does NOT decide that the CUE built for a keyword or a combination of keywords accepts exactly the instances JSON Schema prescribes (matchN/matchIf/closedness interactions): that is the core of the property and needs an independent validator as oracle.",
     "constraints_gen.go is what is compiled in; CUE builtins (strings.MinRunes, list.MatchN, struct.MinFields, ...) trusted")
 
 # properties not claimed (yet) -> reason
